@@ -111,6 +111,14 @@ CLAIMED = {
              "report c2, every internal record has Y's size/step time/duration; symbolic obligations: from a cleared state X and Y give equal outputs, "
              "states, delayed reads (symbolic selector), views and dumps for T = 2-3 symbolic input steps.",
         ref="6/C14"),
+    "C16": dict(
+        text="(a) exhaustive enumeration (solver-driven choice points) of all lifecycle programs up to the length bound over {register, deregister, train, "
+             "eval, call module, manual call(force, ignore_mode), delete hook + gc} for every enable-flag combination and pre/post placement, incl. the "
+             "prefixes register-deregister-register: the probe hook runs exactly when registered and its mode is enabled (pre sees the module before, post "
+             "after the call), no dangling handle remains. (b) solver verdict over SYMBOLIC attribute tensors: after Clamping every element is within "
+             "[min,max] and inside values are unchanged (buffer and nested connection weight); after Normalization the p-norm along the chosen dims "
+             "equals |scale| for p in {1,2,inf} (p=2 decomposed into element-wise quotient + an algebraic lemma), zero vectors stay zero.",
+        ref="6/C16"),
     "C17": dict(
         text="Relational: Serial / Biclique (sum, mean, prod, min, max, custom; with and without connection/neuron transforms) / RecurrentSerial (T=3, "
              "feedback synapse with and without memory and bias) outputs, intermediate currents and every component state versus a hand composition of "
